@@ -129,6 +129,23 @@ def c08comp(x=1, d=None, l=None):
 """,
 })
 
+# Helper shared by the trees of driver 7: protects `r` (accessor flag off at
+# the paths `off` or everywhere, seal at the paths `seal`), then performs the
+# legal operation `op` at path `at` inside `pg.as_sealed(sc)`.
+PREP_SRC = """def c08_prep(r, off=(), seal=(), at='', op='pass', sc=None):
+  def f(k, v, p):
+    if isinstance(v, pg.Symbolic) and (off == '*' or str(k) in off):
+      v.set_accessor_writable(False)
+  pg.traverse(r, f)
+  for p in seal: r.sym_get(p).seal()
+  try:
+    with pg.as_sealed(sc): exec(op, {'pg': pg, 'n': r.sym_get(at)})
+  except Exception: pass
+  return r
+"""
+for _k in list(PRE):
+  PRE['p:' + _k] = PRE[_k] + PREP_SRC
+
 _NS = {}
 for _src in PRE.values():
   exec(compile(_src, '<c08-preamble>', 'exec'), _NS)  # pylint: disable=exec-used
@@ -240,12 +257,21 @@ def hits_sealed(prot, addr_path, target, name):
   return is_within(target, prot)
 
 
-def snapshot(root):
+def _walk_state(root):
+  """(json, flat state, [nodes]) in one walk; the node list keeps every node
+  (and every object's attribute dict) alive so that ids stay unique."""
   flat = []
+  nodes = []
 
   def walk(v):
+    nodes.append(v)
     flat.append((tuple(v.sym_path.keys), id(v), v.is_sealed,
                  v.accessor_writable))
+    if isinstance(v, pg.Object):
+      a = v.sym_init_args
+      nodes.append(a)
+      flat.append((tuple(v.sym_path.keys) + ('<attrs>',), id(a), a.is_sealed,
+                   a.accessor_writable))
     if isinstance(v, pg.Functor):
       # Bound-argument bookkeeping is part of the value's state.
       flat.append((sorted(v.specified_args), sorted(v.non_default_args),
@@ -254,7 +280,49 @@ def snapshot(root):
       if isinstance(c, pg.Symbolic):
         walk(c)
   walk(root)
-  return (pg.to_json(root), tuple(flat))
+  return (pg.to_json(root), tuple(flat)), nodes
+
+
+def snapshot(root):
+  return _walk_state(root)[0]
+
+
+def flag_changes(before, after):
+  """Surviving nodes (same identity) whose protection flags differ between two
+  snapshots: [(path keys before, flag name, old, new)]."""
+  now = {e[1]: e for e in after[1] if len(e) == 4}
+  out = []
+  for e in before[1]:
+    if len(e) != 4 or e[1] not in now:
+      continue
+    f = now[e[1]]
+    if f[2] != e[2]:
+      out.append((e[0], 'is_sealed', e[2], f[2]))
+    if f[3] != e[3]:
+      out.append((e[0], 'accessor_writable', e[3], f[3]))
+  return out
+
+
+FLAG_WITNESS_HEAD = [
+    'def W(v, o):',
+    '  o.append(v)',
+    '  if isinstance(v, pg.Object): o.append(v.sym_init_args)',
+    '  for _, c in v.sym_items():',
+    '    if isinstance(c, pg.Symbolic): W(c, o)',
+    '  return o',
+    'F = lambda: {id(v): (v.is_sealed, v.accessor_writable) '
+    'for v in W(root, [])}',
+    'keep = W(root, []); b = F()']
+
+
+def flag_witness(tree, setup_lines, sealed_stack, acc_stack, addr, src):
+  w = [pre_of(tree), f'root = {TREES[tree][0]}'] + list(setup_lines)
+  w += [f'n = {node_expr(addr)}'] + FLAG_WITNESS_HEAD + ['try:']
+  sc, ind = scope_src(sealed_stack, acc_stack, '  ')
+  w += sc + [f'{ind}{src}', 'except Exception: pass', 'a = F()',
+             'bad = [(i, f, a[i]) for i, f in b.items() if a.get(i, f) != f]',
+             "assert not bad, 'protection flags of surviving nodes changed'"]
+  return '\n'.join(w)
 
 
 class Pool:
@@ -639,10 +707,8 @@ def _attempt(rec, tree, root, setup_lines, sealed_stack, acc_stack, addr, kind,
              name, src, sealed_eff, writable_eff, cfg, ref_addr=None,
              start_sealed=None):
   """Runs one op under the config and judges it."""
-  ref = reference(tree, ref_addr or addr, src)
-  would_change = ref[0] == 'ok' and ref[2]
   n = resolve(root, addr)
-  before = snapshot(root)
+  before, keep_alive = _walk_state(root)
   err = None
   try:
     with Scopes(sealed_stack, acc_stack):
@@ -654,32 +720,38 @@ def _attempt(rec, tree, root, setup_lines, sealed_stack, acc_stack, addr, kind,
                   pg_flags.is_under_accessor_writable_scope() is None)
   unchanged = after == before
   refused = isinstance(err, WPE) and unchanged
-  same_as_ref = ((ref[0] == 'ok' and err is None and after[0] == ref[1]) or
-                 (ref[0] == 'exc' and type(err) is ref[1]))  # pylint: disable=unidiomatic-typecheck
   key = (tree, cfg, addr, src)
-
-  if sealed_eff:
-    mode = 'sealed'
-    if would_change:
-      ok, expect = refused, 'refuse'
-    else:
-      ok, expect = unchanged, 'unchanged'
-  elif not writable_eff and kind == 'acc':
+  strict = sealed_eff or (not writable_eff and kind == 'acc')
+  if strict:
     # Protection source is part of the input class: innermost effective scope
     # value vs. the per-object flag.
-    mode = 'accessor-off[%s]' % _acc_source(acc_stack)
-    if would_change:
-      ok, expect = refused, 'refuse'
-    else:
-      ok, expect = unchanged, 'unchanged'
+    mode = ('sealed' if sealed_eff else
+            'accessor-off[%s]' % _acc_source(acc_stack))
   elif not writable_eff and kind in ('meth', 'inpl'):
     mode = 'accessor-off-method[%s]' % _acc_source(acc_stack)
-    ok = refused or same_as_ref
-    expect = ('either', (ref[0], ref[1]))
   else:
     mode = 'writable'
-    ok = same_as_ref
-    expect = (ref[0], ref[1])
+  ref = None
+  if strict and refused:
+    # Refused with the tree intact is right whether or not the operation
+    # would have changed anything: the reference run is not needed.
+    ok, expect = True, 'refuse'
+  else:
+    ref = reference(tree, ref_addr or addr, src)
+    would_change = ref[0] == 'ok' and ref[2]
+    same_as_ref = ((ref[0] == 'ok' and err is None and after[0] == ref[1]) or
+                   (ref[0] == 'exc' and type(err) is ref[1]))  # pylint: disable=unidiomatic-typecheck
+    if strict:
+      if would_change:
+        ok, expect = refused, 'refuse'
+      else:
+        ok, expect = unchanged, 'unchanged'
+    elif mode != 'writable':
+      ok = refused or same_as_ref
+      expect = ('either', (ref[0], ref[1]))
+    else:
+      ok = same_as_ref
+      expect = (ref[0], ref[1])
   case_id = f'{name}|{mode}'
   if not unchanged and isinstance(err, WPE):
     # Refused but modified: always wrong.
@@ -692,11 +764,27 @@ def _attempt(rec, tree, root, setup_lines, sealed_stack, acc_stack, addr, kind,
       case_id = 'rebind-from-unsealed-ancestor/partially-applied-before-refusal'
     else:
       case_id = f'{name}|{mode}+refused-but-modified'
-  msg = (f'cfg={cfg} at={addr} op={src!r}: err={err!r} unchanged={unchanged} '
-         f'would_change={would_change} ref={ref[0]}')
+  msg = ''
+  if not ok:
+    msg = (f'cfg={cfg} at={addr} op={src!r}: err={err!r} unchanged={unchanged} '
+           f'would_change={would_change} ref={ref[0]}')
   rec.case(case_id, key, ok, msg,
            witness(tree, setup_lines, sealed_stack, acc_stack, addr, src,
                    expect) if not ok else '')
+  if not unchanged:
+    # No operation of the scope is a (un)sealing / set_accessor_writable API:
+    # whatever it did, every node that is still in the tree must carry the
+    # protection flags it had before ("sealed ... stays", "unsealing restores",
+    # i.e. only the flag APIs and scopes decide about protection).
+    flips = flag_changes(before, after)
+    for flag in ('is_sealed', 'accessor_writable'):
+      bad = [f for f in flips if f[1] == flag]
+      rec.case(f'{name}|changes-{flag}-of-surviving-node', key, not bad,
+               f'cfg={cfg} at={addr} op={src!r}: err={err!r} flags changed '
+               f'(path, flag, before, after): {bad[:3]}',
+               flag_witness(tree, setup_lines, sealed_stack, acc_stack, addr,
+                            src) if bad else '')
+  del keep_alive
   rec.case('scope-restored-after-op', key, scopes_clean,
            'scope flags leaked after leaving the with-blocks',
            witness(tree, setup_lines, sealed_stack, acc_stack, addr, src,
@@ -1578,9 +1666,267 @@ def drv_helpers_and_seal_apis(tier, seed):
   return rec.result()
 
 
+# --------------------------------------------------------------------------
+# Driver 7: protection persists across legal operations.  The expected
+# protection of a node comes from the driver's own bookkeeping (which flag API
+# / constructor keyword was applied to it), never from reading the flag back.
+# --------------------------------------------------------------------------
+
+PERSIST_EXTRA_TREES = {
+    # constructor keywords instead of set_accessor_writable / seal
+    'ctor-off': (
+        "pg.Dict(a=1, b=pg.Dict(x=1, accessor_writable=False), "
+        "c=pg.List([3, 1, 2], accessor_writable=False), "
+        "t=pg.List([3, 1], value_spec=pg.typing.List(pg.typing.Int()), "
+        "accessor_writable=False), accessor_writable=False)", 'plain'),
+    'ctor-off-spec': (
+        "pg.Dict(n=3, l=[3, 1, 2], s=dict(u=1, w=2), extra=5, "
+        "value_spec=C08SPEC, accessor_writable=False)", 'spec'),
+    'ctor-sealed': (
+        "pg.Dict(a=1, b=pg.Dict(x=1, y=pg.List([3, 1])), "
+        "c=pg.List([3, 1, 2]), sealed=True)", 'plain'),
+    'ctor-sealed-spec': (
+        "pg.Dict(n=3, l=[3, 1, 2], s=dict(u=1, w=2), extra=5, "
+        "value_spec=C08SPEC, sealed=True)", 'spec'),
+    'ctor-sealed-obj': (
+        "pg.Dict(h=C08A(x=1, d=pg.Dict(p=1), l=pg.List([3, 1]), "
+        "sealed=True), t=5)", 'cls'),
+}
+TREES.update(PERSIST_EXTRA_TREES)
+for _k, _v in PERSIST_EXTRA_TREES.items():
+  _TREE_CODE[_k] = compile(_v[0], f'<tree {_k}>', 'eval')
+
+# (base tree, off paths | '*', seal paths, paths protected by the constructor
+#  [accessor-off], [sealed: deep]).
+PERSIST_BASES = (
+    [(t, '*', (), (), ()) for t in BASE_TREES + KIND_TREES] +
+    [(t, (), ('',), (), ()) for t in BASE_TREES + KIND_TREES] +
+    [(t, (), ('h',), (), ()) for t in KIND_TREES] +
+    [('dict', ('b',), ('c',), (), ()), ('obj', ('',), ('d',), (), ()),
+     ('ctor-off', (), (), ('', 'b', 'c', 't'), ()),
+     ('ctor-off-spec', (), (), ('',), ()),
+     ('ctor-sealed', (), (), (), ('',)),
+     ('ctor-sealed-spec', (), (), (), ('',)),
+     ('ctor-sealed-obj', (), (), (), ('h',))])
+
+READONLY_OPS = [
+    ('clone/deep', 'rebind', 'n.clone(deep=True)'),
+    ('clone/shallow', 'rebind', 'n.clone()'),
+    ('copy.deepcopy', 'rebind', '__import__("copy").deepcopy(n)'),
+    ('to_json+from_json', 'rebind', 'pg.from_json(pg.to_json(n))'),
+    ('format+eq+hash', 'rebind',
+     'n.format(); pg.eq(n, n.clone()); pg.hash(n)'),
+]
+# Accessor mechanisms probed after the legal operation (one per distinct
+# accessor entry point), and one operation per non-accessor kind.
+PROBE_ACC = {
+    'dict': ('dict.setitem/existing', 'dict.setitem/new',
+             'dict.setattr/existing', 'dict.setattr/new', 'dict.delitem',
+             'dict.delattr'),
+    'list': ('list.setitem/index', 'list.setitem/slice-grow',
+             'list.delitem/index', 'list.delitem/slice'),
+    'object': ('object.setattr', 'object.setattr/builtin',
+               'object.setattr/missing-value', 'object.delattr'),
+}
+PROBE_OTHER = {
+    'dict': ('dict.update/kwargs', 'dict.ior', 'dict.rebind/kwargs',
+             'dict.clear'),
+    'list': ('list.append', 'list.iadd', 'list.rebind/append', 'list.clear'),
+    'object': ('object.rebind/kwargs', 'object.rebind/reset-default'),
+}
+PROBE_NEIGHBOUR = {'dict': ('dict.setitem/new', 'dict.rebind/kwargs'),
+                   'list': ('list.setitem/index', 'list.rebind/append'),
+                   'object': ('object.setattr', 'object.rebind/kwargs')}
+
+
+def _probe_class(name):
+  if 'rebind' in name:
+    return 'rebind'
+  if '.del' in name:
+    return 'accessor-delete'
+  if '.set' in name:
+    return 'accessor-set'
+  return 'method'
+
+
+def _ops_named(k, names):
+  seen = set()
+  out = []
+  for n_, k_, s_ in OPS[k]:
+    if n_ in names and n_ not in seen:
+      seen.add(n_)
+      out.append((n_, k_, s_))
+  return out
+
+
+def _legal_ops_at(node, k, label, in_scope):
+  """Operations that are permitted at a protected node: everything but the
+  accessors when only the accessors are off; everything inside
+  as_sealed(False)."""
+  ops = [o for o in OPS[k] if in_scope or o[1] != 'acc']
+  ops = ops + any_ops_for(node) + READONLY_OPS
+  out = []
+  seen = set()
+  for n_, k_, s_ in ops:
+    if (n_, s_) in seen:
+      continue
+    seen.add((n_, s_))
+    if label and n_.startswith('object'):
+      n_ = label + n_[len('object'):]
+    out.append((n_, s_))
+  return out
+
+
+def _persist_tree_src(base, off, seal, at, op, sc):
+  args = [TREES[base][0]]
+  if off:
+    args.append(f'off={off!r}')
+  if seal:
+    args.append(f'seal={seal!r}')
+  args += [f'at={at!r}', f'op={op!r}']
+  if sc is not None:
+    args.append(f'sc={sc!r}')
+  return f"c08_prep({', '.join(args)})"
+
+
+def drv_protection_persists(tier, seed):
+  global _REF  # pylint: disable=global-statement
+  rec = Recorder(
+      'C08', 'protection persists: after any permitted operation (rebind / '
+      'method / in-place operator / pg.patch* helper while only accessors are '
+      'off; any mutator inside as_sealed(False); read-only APIs such as clone, '
+      'deepcopy, to_json) every surviving node that was sealed / had its '
+      'accessors disabled (by seal(), set_accessor_writable(False) or the '
+      'constructor keywords sealed=True / accessor_writable=False, with and '
+      'without value spec) still refuses every accessor form / every mutator, '
+      'rebind still works on accessor-protected nodes, unprotected nodes '
+      'stay writable',
+      scope='bases: 4 base + 7 kind trees x {accessors off at every node, '
+      'sealed root} + kind trees sealed at the object + 2 mixed + 5 trees '
+      'protected by constructor keywords (incl. typed dict / typed list); '
+      'one permitted operation (every op of the op tables, 7 pg.patch* '
+      'helpers, 5 read-only APIs) at every node (quick: every 2nd..3rd, '
+      'always incl. clear/update/rebind forms), plus seeded sequences of 2 '
+      'permitted operations; then 4-6 accessor forms + method/in-place/rebind '
+      'at the node operated on and 2 probes at every other surviving '
+      'protected node')
+  r = rng(seed, 'c08-persist')
+  saved_ref = _REF
+  always = ('clear', 'update/dict', 'rebind/kwargs', 'rebind/index',
+            'use_value_spec', 'clone/deep', 'call/override', 'setitem/new',
+            'patch/dict-rule')
+  quick = tier == 'quick'
+  try:
+    for bi, (base, off, seal, ctor_off, ctor_seal) in enumerate(PERSIST_BASES):
+      if quick and base in KINDS and seal == ('',):
+        continue  # quick: kind trees are sealed at the object only
+      prekey = 'p:' + TREES[base][1]
+      label = KINDS[base][0] if base in KINDS else ''
+      in_scope = bool(seal or ctor_seal)
+      sc = False if in_scope else None
+      proto0 = build(base)
+      init_w = {p: n.accessor_writable for p, n in sym_nodes(proto0)}
+      sealed_paths = tuple(seal) + tuple(ctor_seal)
+
+      def exp_sealed(p0):
+        return any(is_within(p0, q) for q in sealed_paths)
+
+      def exp_writable(p0):
+        if off == '*' or p0 in off or p0 in ctor_off:
+          return False
+        return init_w[p0]
+
+      # prefixes: (node path, name, src)
+      prefixes = []
+      for ni, (p0, node) in enumerate(sym_nodes(proto0)):
+        if base in KINDS and p0 != 'h' and quick:
+          continue
+        if in_scope and not exp_sealed(p0):
+          continue  # plain operation on an unprotected node: drivers 1-3
+        if not in_scope and exp_writable(p0):
+          continue
+        k = kind_of(node)
+        lab = label if p0 == 'h' else ''
+        ops = _legal_ops_at(node, k, lab, in_scope)
+        if quick:
+          ops = [o for i, o in enumerate(ops)
+                 if any(o[0].endswith(a) for a in always)
+                 or (i + bi + ni) % 5 == 0]
+        prefixes += [(p0, n_, s_) for n_, s_ in ops]
+        # seeded sequences of two permitted operations at the same node
+        pool_ops = [o for o in _legal_ops_at(node, k, lab, in_scope)
+                    if '+=' not in o[1] and '*=' not in o[1]
+                    and '|=' not in o[1]]
+        for _ in range(1 if quick else 12):
+          a, b = r.choice(pool_ops), r.choice(pool_ops)
+          prefixes.append((p0, 'sequence-of-2-permitted-ops',
+                           f'{a[1]}\n{b[1]}'))
+
+      for at, pname, psrc in prefixes:
+        # Survivors of the prefix (by identity) and their new paths.
+        root0 = build(base)
+        orig = {id(n): p for p, n in sym_nodes(root0)}
+        keep = [n for _, n in sym_nodes(root0)]
+        ptree = f'{base}~{bi}'
+        TREES[ptree] = (_persist_tree_src(base, off, seal, at, psrc, sc),
+                        prekey)
+        _TREE_CODE[ptree] = compile(TREES[ptree][0], '<persist>', 'eval')
+        _REF = {}
+        try:
+          _NS['c08_prep'](root0, off, seal, at, psrc, sc)
+          survivors = [(p, orig[id(n)], kind_of(n))
+                       for p, n in sym_nodes(root0) if id(n) in orig]
+        except Exception as e:  # pylint: disable=broad-except
+          rec.case(f'after[{pname}]|harness-exception', (base, bi, at, psrc),
+                   False, f'{type(e).__name__}: {e}',
+                   f'{PRE[prekey].strip()}\nroot = {TREES[ptree][0]}\n'
+                   'pg.to_json(root)\n[v for v in root.sym_descendants()]')
+          continue
+        del keep
+        tag = '[in as_sealed(False)]' if in_scope else ''
+        pool = Pool(ptree)
+        # Non-mutating expectations first so that one tree serves them all.
+        survivors.sort(key=lambda t: t[1] != at)
+        nb = 0
+        for p, p0, k in survivors:
+          s_eff, w_eff = exp_sealed(p0), exp_writable(p0)
+          here = p0 == at
+          related = is_within(p0, at) or is_within(at, p0)
+          if quick and not here:
+            # quick: two related (ancestor / descendant) nodes and one other
+            if nb >= (2 if related else 3):
+              continue
+            nb += 1
+          if s_eff:
+            names = ((PROBE_ACC[k][:1] + PROBE_ACC[k][-1:] + PROBE_OTHER[k])
+                     if here else PROBE_NEIGHBOUR[k][:1 if quick else 2])
+          elif not w_eff:
+            names = (PROBE_ACC[k] + PROBE_OTHER[k][-2:-1] if here
+                     else PROBE_NEIGHBOUR[k][:1 if quick else 2])
+          else:
+            if quick and not here:
+              continue
+            names = PROBE_NEIGHBOUR[k][:1]
+          where = 'same-node' if here else (
+              'descendant' if is_within(p0, at) else
+              'ancestor' if is_within(at, p0) else 'other-node')
+          for name, kind, src in _ops_named(k, names):
+            root = pool.get()
+            cid = f'after[{pname}{tag}]@{where}/{_probe_class(name)}'
+            pool.done(attempt(
+                rec, ptree, root, [], (), (), (p, ''), kind, cid, src, s_eff,
+                w_eff, f'base={base} off={off} seal={seal} after {psrc!r} '
+                f'at {at!r}', start_sealed=s_eff))
+        TREES.pop(ptree, None)
+        _TREE_CODE.pop(ptree, None)
+  finally:
+    _REF = saved_ref
+  return rec.result()
+
+
 DRIVERS = [drv_sealed_flag, drv_sealed_scopes, drv_accessor,
            drv_seal_histories, drv_symbolic_kinds,
-           drv_helpers_and_seal_apis]
+           drv_helpers_and_seal_apis, drv_protection_persists]
 
 
 def replay(rec):
